@@ -1,6 +1,6 @@
 (** C01, source-derived leakage model: NONINTERFERENCE of the instrumented kernels.
 
-    tools/rs2v_leak.py re-reads /repo's CURRENT source text on every run and writes, for each of the 219 kernels that
+    tools/rs2v_leak.py re-reads /repo's CURRENT source text on every run and writes, for each of the 222 kernels that
     tools/rs2v.py ties to the models, an instrumented definition [l_f args : result * list Z] (Src/Leak*.v): the value and the list
     of leakage events of a source-level execution (Model/LeakPrelude.v: [ev_br] conditions, [ev_ix] indices, [ev_div] /
     [ev_divc] division operands, [ev_trip] trip counts; mask / select / arithmetic primitives emit nothing).
@@ -17,6 +17,7 @@
     What is NOT proved here: that the optimized binary leaks no more than the source-level trace (tools/vlib/c01.py, c01mc.py). *)
 From CB Require Import Model.SrcPrelude Model.LeakPrelude Src.LeakIterP.
 From CB Require Import Src.LeakPrim Src.LeakPrimP Src.LeakDiv Src.LeakDivP Src.LeakUint Src.LeakUintP Src.LeakMod Src.LeakModP Src.LeakShift Src.LeakShiftP Src.LeakMul Src.LeakMulP Src.LeakInt Src.LeakIntP Src.LeakDivLimb Src.LeakDivLimbP Src.LeakMonty Src.LeakMontyP Src.LeakHex Src.LeakHexP Src.LeakBits Src.LeakBitsP Src.LeakDivCt Src.LeakDivCtP.
+From CB Require Import Src.GenLogic Src.LeakLogic Src.LeakLogicP.
 From Coq Require Import ZArith List.
 Import ListNotations.
 Open Scope Z_scope.
@@ -838,6 +839,22 @@ Print Assumptions C01_src_iterations_strict_refuted.
 Theorem C01_src_jump_consistent : forall fuel f g delta, option_map fst (l_jump fuel f g delta) = g_jump fuel f g delta.
 Proof. exact l_jump_fst. Qed.
 Print Assumptions C01_src_jump_consistent.
+
+(** ** Src/LeakLogic.v: Uint::bitand / bitor / not (both operands secret, the limb count public) *)
+Theorem C01_src_uint_bitand_ni : forall N self1 rhs1 self2 rhs2, snd (l_uint_bitand N self1 rhs1) = snd (l_uint_bitand N self2 rhs2).
+Proof. exact (@l_uint_bitand_ni). Qed.
+Print Assumptions C01_src_uint_bitand_ni.
+Theorem C01_src_uint_bitor_ni : forall N self1 rhs1 self2 rhs2, snd (l_uint_bitor N self1 rhs1) = snd (l_uint_bitor N self2 rhs2).
+Proof. exact (@l_uint_bitor_ni). Qed.
+Print Assumptions C01_src_uint_bitor_ni.
+Theorem C01_src_uint_not_ni : forall N self1 self2, snd (l_uint_not N self1) = snd (l_uint_not N self2).
+Proof. exact (@l_uint_not_ni). Qed.
+Print Assumptions C01_src_uint_not_ni.
+Theorem C01_src_uint_bitwise_consistent : forall N a b,
+  fst (l_uint_bitand N a b) = g_uint_bitand N a b /\ fst (l_uint_bitor N a b) = g_uint_bitor N a b /\
+  fst (l_uint_not N a) = g_uint_not N a.
+Proof. intros N a b. repeat split; [apply l_uint_bitand_fst | apply l_uint_bitor_fst | apply l_uint_not_fst]. Qed.
+Print Assumptions C01_src_uint_bitwise_consistent.
 
 (** ** the new traces are not trivial *)
 Example C01_src_uint_cmp_trace : snd (l_uint_cmp 2 [1; 2] [3; 4]) = [ev_trip 2; ev_ix 0; ev_ix 0; ev_ix 1; ev_ix 1].
